@@ -100,6 +100,68 @@ def shapes(v0: int, v1: int, v2: int, z: int, g: int, p1_1: int, p2_1: int, p1_2
                  [(N - 1, t1, 4)], [sh] * N, [dflt] * N, True)
 
 
+SP2 = ["m2(a, b)", "m2(a, b=b)", "m2(a=a, b=b)", "m2(b=b, a=a)", "m2[a, b]", "m2[(a, b)]", "m2(a) / m2(a=a) with the default b", "from a formula: m2(b=y, a=x)", "from a formula: m2(x, y)"]
+
+
+def _spell2(S, s, a, b):
+    m2 = S.cells["m2"]
+    if s == 0:
+        return call(m2, a, b)
+    if s == 1:
+        return call(m2, a, b=b)
+    if s == 2:
+        return call(m2, a=a, b=b)
+    if s == 3:
+        return call(m2, b=b, a=a)
+    if s == 4:
+        return call(m2.__getitem__, (a, b))
+    if s == 5:
+        return call(lambda: m2[(a, b)])
+    if s == 6:
+        return call(m2, a) if b == 1 else call(m2, a=a, b=b)
+    if s == 7:
+        r = call(S.cells["viakw"], a, b)
+        return r if r[0] != "ok" else ("ok", r[1] - 1000)
+    if s == 8:
+        r = call(S.cells["viapos"], a, b)
+        return r if r[0] != "ok" else ("ok", r[1] - 2000)
+    raise ValueError(s)
+
+
+@harness
+def binding(v: int, w: int, g: int, a: int, b: int, s1: int, s2: int, a2: int, b2: int, s3: int) -> bool:
+    """Two-parameter cells with a default: every spelling that binds to the same arguments denotes the same element."""
+    a, b, s1, s2, a2, b2 = pick(a, 0, 2), pick(b, 0, 2), pick(s1, 0, 8), pick(s2, 0, 8), pick(a2, 0, 2), pick(b2, 0, 2)
+    s3 = (s1 + 4) % 9 if TIER == "quick" else pick(s3, 0, 8)
+    with notrace():
+        m = new_model("B")
+        S = m.new_space("S")
+        m.hit = hit
+        m.g = 0
+        S.v, S.w = 0, 0
+        S.new_cells("m2", formula="def m2(a, b=1):\n    hit(a, b)\n    return v * a + w * b + a * 10 + b + g\n")
+        S.new_cells("viakw", formula="lambda x, y: m2(b=y, a=x) + 1000")
+        S.new_cells("viapos", formula="lambda x, y: m2(x, y) + 2000")
+        S.v, S.w, m.g = v, w, g
+    exp = lambda a_, b_: v * a_ + w * b_ + a_ * 10 + b_ + g
+    seen = []
+    for (aa, bb, ss) in ((a, b, s1), (a, b, s2), (a2, b2, s3)):
+        label("%s with a=%d b=%d" % (SP2[ss], aa, bb))
+        r = _spell2(S, ss, aa, bb)
+        if not check(r[0] == "ok" and r[1] == exp(aa, bb), "value of m2(a=%d, b=%d)" % (aa, bb), lambda: (r, exp(aa, bb))):
+            return False
+        if (aa, bb) not in seen:
+            seen.append((aa, bb))
+        with notrace():
+            runs = sorted(ctx.hits)
+            held = sorted(dict(S.cells["m2"]))
+        if not check(runs == sorted(seen), "one formula run per distinct argument binding", lambda: (runs, seen)):
+            return False
+        if not check(held == sorted(seen), "held elements == distinct argument bindings requested", lambda: (held, seen)):
+            return False
+    return True
+
+
 _PRE = dag_pre(N)
 _NAT = dict(v0=1, v1=2, v2=3, z=4, g=5, p1_1=0, p2_1=-1, p1_2=1, p2_2=0)
 
@@ -129,6 +191,13 @@ QUERIES = [
           bounds=lambda tier: {"spellings": ["c(t)", "c(t=t)", "c[t]", "c[(t,)]", "c() default omitted / c(*(t,))"], "pairs": "all 25 x 2 (default param or not)",
                                "scalar_cells_spellings": [".value", "()", "[()]"]},
           outside=["match()", "cells with more than one parameter"]),
+    Query("binding", binding,
+          pre=["0 <= a <= 2", "0 <= b <= 2", "0 <= s1 < 9", "0 <= s2 < 9", "0 <= a2 <= 2", "0 <= b2 <= 2", "0 <= s3 < 9"],
+          partitions=lambda tier, seed: [dict(s1=k, b2=1, a2=[0, 1] if tier == "quick" else [0, 2], a=[1, 2] if tier == "quick" else [0, 2], b=[0, 1] if tier == "quick" else [0, 2]) for k in range(9)],
+          natives=[dict(v=3, w=4, g=5, a=2, b=1, s1=x, s2=y, a2=1, b2=2, s3=z) for (x, y, z) in ((0, 3, 7), (6, 2, 4), (7, 5, 8), (3, 3, 3), (8, 6, 1))],
+          bounds=lambda tier: {"cells": "def m2(a, b=1)", "spellings": SP2, "arguments": "a in 0..2, b in 0..2 (quick: b in 0..1)", "requests": "two spellings of the same arguments, then a third request",
+                               "values": "v, w, g unbounded"},
+          outside=["cells with more than two parameters", "*args / keyword-only parameters"]),
     Query("shapes", shapes,
           pre=_PRE + ["0 <= sh < 6", "0 <= t1 <= 1"],
           partitions=lambda tier, seed: product(sh=list(range(CALL_SHAPES)), dflt=[False, True]),
@@ -142,6 +211,7 @@ BUDGET = {"quick": 400, "thorough": 1200}
 
 
 import os as _os
+TIER = _os.environ.get("VERIF_TIER", "quick")
 TMAX = _T = 1 if _os.environ.get("VERIF_TIER", "quick") == "quick" else 2
 for _q in QUERIES:
     _q.pre = [p.replace("TMAX", str(_T)) for p in _q.pre]
